@@ -11,6 +11,9 @@
     and `c13_step_ends`: the same scripted step emits the end;
   * `c13_plain_disconnect`: the client's own DISCONNECT is answered, the state becomes
     disconnected first (so the end sends no second DISCONNECT), and the session is cancelled.
+  * **all runs** — `c13_step_reaches_ended` + `c13_ended_runs_are_silent`: the step in which a session
+    is cancelled leaves it `Ended`, and from an `Ended` session ANY further sequence of events and any
+    passage of time emits nothing at all — no datagram, no MQTT packet, no second end;
   Bounded real time (poll interval, pending send) and goroutine exit are runtime facts: they are
   measured by the harness on the real handler (virtual clock, goroutine census after the end)
   and checked by the monitor `Spec.c13`.
@@ -105,5 +108,103 @@ theorem c13_plain_disconnect (g : Gw) :
   unfold handlePlainDisconnect
   refine ⟨?_, by simp, fail_alive _ _⟩
   simp [snSend, mqttSend, emit, setSt]
+
+end Bisquitt.Gw
+
+namespace Bisquitt.Gw
+open Bisquitt Gw
+
+/-! ## every run: a session that has ended does nothing any more -/
+
+/-- the session has ended and the instrumentation has reported its last state -/
+def Ended (g : Gw) : Prop :=
+  g.alive = false ∧ g.endedEmitted = true ∧ g.sampledState = g.st ∧ g.sampledReg = g.liveRegistry ∧ g.sampledBuf = g.bufferBytes
+
+theorem finishSession_ended (g : Gw) (_h : g.alive = false) (he : g.endedEmitted = true) : g.finishSession = g := by
+  unfold finishSession
+  split
+  · simp [he]
+  · rfl
+
+theorem sample_ended (g : Gw) (h : Ended g) : g.sample = g := by
+  unfold sample sampleBuf sampleReg sampleState
+  obtain ⟨_, _, h1, h2, h3⟩ := h
+  simp [h1.symm, h2.symm, h3.symm]
+
+theorem advance_ended (fuel : Nat) (g : Gw) (t : Nat) (h : g.alive = false) (he : g.endedEmitted = true) :
+    advance fuel g t = g.setNow (max g.now t) := by
+  cases fuel with
+  | zero => rfl
+  | succ n => unfold advance; simp [h, finishSession_ended g h he]
+
+/-- **C13 (one whole step).** Once a session has ended, no event and no passage of time makes it emit
+    anything: no datagram, no MQTT packet, no second end. -/
+theorem c13_ended_step (g : Gw) (t : Nat) (ev : Event) (h : Ended g) :
+    (g.step t ev).outs = g.outs ∧ Ended (g.step t ev) := by
+  obtain ⟨ha, he, h1, h2, h3⟩ := h
+  unfold step stepCore deliver
+  rw [advance_ended _ g t ha he]
+  have ha' : (g.setNow (max g.now t)).alive = false := by simpa [setNow, alive] using ha
+  have he' : (g.setNow (max g.now t)).endedEmitted = true := by simpa [setNow] using he
+  simp only [ha', Bool.not_false, if_true]
+  rw [finishSession_ended _ ha' he']
+  have hE : Ended (g.setNow (max g.now t)) := ⟨ha', he', h1, h2, h3⟩
+  rw [sample_ended _ hE]
+  exact ⟨rfl, hE⟩
+
+/-- **C13 (ALL runs).** After its end a session is silent for ever, whatever still arrives. -/
+theorem c13_ended_runs_are_silent (g : Gw) (evs : List (Nat × Event)) (h : Ended g) :
+    (g.run evs).outs = g.outs ∧ Ended (g.run evs) := by
+  unfold run
+  induction evs generalizing g with
+  | nil => exact ⟨rfl, h⟩
+  | cons e rest ih =>
+    simp only [List.foldl_cons]
+    have q := c13_ended_step g e.1 e.2 h
+    have q2 := ih _ q.2
+    exact ⟨q2.1.trans q.1, q2.2⟩
+
+theorem finishSession_marks (g : Gw) (h : g.alive = false) : g.finishSession.endedEmitted = true ∧ g.finishSession.alive = false := by
+  unfold finishSession
+  cases hc : g.cancelledAt with
+  | none => simp [alive, hc] at h
+  | some tc =>
+    simp only
+    split
+    · rename_i he; exact ⟨he, h⟩
+    · unfold stopTimers emitEnd shutdownDisconnect setNow
+      split <;> simp [alive, emit, hc]
+
+theorem sample_syncs (g : Gw) : g.sample.sampledState = g.sample.st ∧ g.sample.sampledReg = g.sample.liveRegistry ∧
+    g.sample.sampledBuf = g.sample.bufferBytes ∧ g.sample.alive = g.alive ∧ g.sample.endedEmitted = g.endedEmitted := by
+  unfold sample sampleBuf sampleReg sampleState
+  split <;> split <;> split <;> simp_all [emit, liveRegistry, bufferBytes, alive]
+
+/-- **C13.** The step in which a session is cancelled leaves it `Ended`: from then on
+    `c13_ended_runs_are_silent` applies. -/
+theorem c13_step_reaches_ended (g : Gw) (t : Nat) (ev : Event) (h : (g.step t ev).alive = false) : Ended (g.step t ev) := by
+  have hs := sample_syncs (g.stepCore t ev)
+  have ha : (g.stepCore t ev).alive = false := by rw [← hs.2.2.2.1]; exact h
+  have he : (g.stepCore t ev).endedEmitted = true := by
+    unfold stepCore deliver at ha ⊢
+    split
+    · rename_i hd
+      exact (finishSession_marks _ (by simpa using hd)).1
+    · rename_i hd
+      have : ((advance 100000 ((advance 100000 g t).handleEvent ev) t).finishSession).alive = false := by
+        simpa [hd] using ha
+      by_cases hx : (advance 100000 ((advance 100000 g t).handleEvent ev) t).alive = false
+      · exact (finishSession_marks _ hx).1
+      · -- still alive before `finishSession`: it changes nothing, contradiction
+        have hx' : (advance 100000 ((advance 100000 g t).handleEvent ev) t).cancelledAt = none := by
+          cases hc : (advance 100000 ((advance 100000 g t).handleEvent ev) t).cancelledAt with
+          | none => rfl
+          | some _ => simp [alive, hc] at hx
+        have e : (advance 100000 ((advance 100000 g t).handleEvent ev) t).finishSession =
+            advance 100000 ((advance 100000 g t).handleEvent ev) t := by unfold finishSession; simp [hx']
+        rw [e] at this
+        exact absurd this hx
+  unfold step
+  exact ⟨h, by rw [hs.2.2.2.2]; exact he, hs.1, hs.2.1, hs.2.2.1⟩
 
 end Bisquitt.Gw
